@@ -178,9 +178,69 @@ def families(U, rng):
         "mse": lambda: ((U.M * U.M).sum(), set(ms)),
         "fro": lambda: (M.FrobeniusNorm(U.M), set(ms)),
     }
+    # vector / matrix nodes over views, rows, columns, diagonals, strided and reversed operands (checklist 5)
+    def nm(vv):
+        return {v.name for v in vv._variables}
+
+    m2 = min(n, 2)
+    Q2 = np.array([[0.25, 0.125], [-0.125, 0.5]])
+    rev, strided, sl2 = U.x[::-1], U.w[0:2 * n:2][0:n], U.w[1:n + 2][::2]
+    row, col, diag, srow, scol = U.M[0, :], U.M[:, 1], U.S.diagonal(), U.S[0, :], U.S[:, 1]
+    vec.update({
+        "view:dot-rev": lambda: (V.DotProduct(rev, U.y), nm(rev) | set(ys)),
+        "view:lc-strided": lambda: (V.LinearCombination(cs[:strided.size], strided), nm(strided)),
+        "view:ps-slice-of-slice": lambda: (V.VectorPowerSum(sl2, 2), nm(sl2)),
+        "view:vs-row": lambda: (V.VectorSum(row), nm(row)),
+        "view:qf-col": lambda: (M.QuadraticForm(col, Q2), nm(col)),
+        "view:l1-diag": lambda: (V.L1Norm(diag), nm(diag)),
+        "view:dot-symrow-symcol": lambda: (V.DotProduct(srow, scol), nm(srow) | nm(scol)),
+        "view:us-symrow": lambda: (V.VectorUnarySum(srow, "cos"), nm(srow)),
+        "view:fro-sym": lambda: (M.FrobeniusNorm(U.S), set(ss)),
+        "view:msv-T": lambda: (M.MatrixSum(U.M.T), set(ms)),
+        "view:mse-sym": lambda: ((U.S * U.S.T - 0.5).sum(), set(ss)),
+        "view:len1": lambda: (V.VectorSum(U.x[1:2]) + V.L2Norm(U.y[0:1] + 1.0), {U.x[1].name, U.y[0].name}),
+        "view:matvec-nonlin": lambda: (V.DotProduct(U.x, M.MatrixVectorProduct(Q, V.VectorExpression([gen.unary("tanh", v) for v in U.x]))), set(xs)),
+    })
     for name, mk in vec.items():
         # the vector node alternates with a scalar term so that the chain has several distinct terms
         fams["vec:" + name] = (lambda mk: lambda i: mk() if i % 2 == 0 else var(i))(mk)
+    # ---- audit families (checklist 1, 2, 3, 4, 7, 9, 14)
+    from optyx import Variable
+
+    typed = [3, 3.0, np.int64(3), np.float32(0.5), np.uint8(2), np.int8(-2), True, np.array(2.0), np.float16(0.25), np.int32(-1)]
+    typed_k = [2, 2.0, np.int64(2), np.float32(2), np.uint8(2), True, np.array(3), 3]
+    tiny = [1e-12, -1e-9, 4e-9, 1e-8 * (1 + 2 ** -20), -1e-8 * (1 - 2 ** -20), 1e-7, 7.5e-9]
+    huge = [1e8, -1e16, 3e16, 1e17]
+    p2 = U.params[1]
+    shared_terms = [gen.unary("sin", pool[0]) * pool[1 % k] + 1.0, pool[2 % k] * 0.5 - pool[0], V.DotProduct(U.x, U.y)]
+    shared_names = [{pool[0].name, pool[1 % k].name}, {pool[2 % k].name, pool[0].name}, set(xs + ys)]
+    two = Constant(1.0) + Constant(1.0)
+
+    def constsub(i):
+        v, w = pool[i % k], pool[(i + 1) % k]
+        forms = [gen.unary("sin", Constant(2.0)) * v, v * two, v + gen.unary("cos", Constant(0.5)), (v * v + 1.0) ** two,
+                 v / (Constant(2.0) * Constant(4.0)), 0.0 * v + w, v ** 0 + w, p * v / (p * p + 1.0), two * Constant(0.25)]
+        j = i % len(forms)
+        return forms[j], ({v.name, w.name} if j in (5, 6) else (set() if j == 8 else {v.name}))
+
+    def refl(i):
+        v = pool[i % k]
+        forms = [2.5 - v, 2.5 / (v * v + 1.0), 2.0 ** (v * 0.25), -v, 0.5 + v, 3.0 * v, -(1.5 - v), (v - 1.0) / -2.0]
+        return forms[i % len(forms)], {v.name}
+
+    fams.update({
+        "aud:typed": lambda i: (pool[i % k] * typed[i % len(typed)] + Constant(typed[(i + 3) % len(typed)]), {pool[i % k].name}),
+        "aud:typed-pow": lambda i: ((pool[i % k] + 1.5) ** typed_k[i % len(typed_k)], {pool[i % k].name}),
+        "aud:tiny": lambda i: (Constant(tiny[i % len(tiny)]) * pool[i % k], {pool[i % k].name}),
+        "aud:huge": lambda i: (Constant(huge[i % len(huge)]) * pool[i % k] + pool[(i + 1) % k], {pool[i % k].name, pool[(i + 1) % k].name}),
+        "aud:mixedmag": lambda i: (Constant((tiny + huge + [1.0, -2.0])[i % 13]) * pool[i % k] * pool[i % k], {pool[i % k].name}),
+        "aud:tiny-lc": lambda i: (V.LinearCombination(np.array((tiny + [1.0])[:n]) if i % 2 else np.array(tiny[-n:]), U.x), set(xs)),
+        "aud:constsub": constsub,
+        "aud:refl": refl,
+        "aud:clone": lambda i: (Variable(pool[i % k].name) * 0.5 + Variable(pool[(i + 1) % k].name), {pool[i % k].name, pool[(i + 1) % k].name}),
+        "aud:shared": lambda i: (shared_terms[i % 3], shared_names[i % 3]),
+        "aud:param-vec": lambda i: ((p * V.DotProduct(U.x, U.y), set(xs + ys)) if i % 2 == 0 else (p2 * V.VectorSum(U.y) - p, set(ys))),
+    })
     return fams, pool
 
 
@@ -221,6 +281,14 @@ def build_balanced(op, ts):
     if len(ts) == 1:
         return ts[0]
     return apply(op, ts[0], balanced("+" if op == "-" else "*", ts[1:]))
+
+
+def build_zigzag(op, ts):
+    """alternating sides (commutative operators only): the left spine is about half of the depth"""
+    acc = ts[0]
+    for i, t in enumerate(ts[1:]):
+        acc = apply(op, acc, t) if i % 2 == 0 else apply(op, t, acc)
+    return acc
 
 
 def build_vector(op, ts):
@@ -363,9 +431,10 @@ def ref_value(e, pt):
 
 def ref_gradient(e, pt, name):
     try:
-        return float(oracle.ref_grad(e, dict(pt), name))
+        g = float(oracle.ref_grad(e, dict(pt), name))
     except (oracle.NotRegular, OverflowError, ZeroDivisionError, ValueError, KeyError):
         return None
+    return g if math.isfinite(g) else None
 
 
 def close(a, b, scale, rtol=1e-9):
@@ -375,7 +444,7 @@ def close(a, b, scale, rtol=1e-9):
         return math.isnan(a) and math.isnan(b)
     if math.isinf(a) or math.isinf(b):
         return a == b
-    return abs(a - b) <= rtol * (1.0 + scale + max(abs(a), abs(b)))
+    return abs(a - b) <= rtol * (scale + max(abs(a), abs(b))) + 1e-300
 
 
 def py_depths(e):
@@ -403,7 +472,7 @@ def formulas(rng, thorough):
     r = rng.randint(0, 3)
     for i, f in enumerate(names):
         for op in (ops if thorough else [ops[(i + rng.randint(0, 3)) % 4]]):
-            out.append((f, op, 401 if (thorough or i % 4 == r) else 48))
+            out.append((f, op, 401 if (thorough or (i % 4 == r and not f.startswith(("aud:", "vec:view:")))) else 48))
     # all operators × all sizes
     core_fams = ["var", "sq", "un:sin", "un:atan", "vec:dot", "vec:ps", "param"]
     for f in (core_fams if thorough else [rng.choice(core_fams)]):
@@ -457,7 +526,7 @@ def run(ctx) -> core.Report:
         rep.histogram["family:" + key] = rep.histogram.get("family:" + key, 0) + 1
         rep.histogram[f"n:{n}"] = rep.histogram.get(f"n:{n}", 0) + 1
         values_ok = n <= 900
-        scale = float(n) * 4.0 if op in "+-" else 1.0  # Σ|tᵢ| bound for the cancellation-aware tolerance
+        scale = term_scale(op, n, pt)  # Σ|tᵢ| for the cancellation-aware tolerance (no absolute floor)
         base = {"family": fam, "op": op, "n": n}
 
         def fail(what, **kw):
@@ -1164,6 +1233,23 @@ def solve_case(n, seed):
 # ----------------------------------------------------------------------------- search / replay
 
 
+def term_scale(op, n, pt):
+    """Σ|tᵢ(pt)| of the terms of the formula prepared last (+, -: the scale rounding errors are relative to);
+    0 for * and / (purely relative comparison)"""
+    if op not in "+-":
+        return 0.0
+    terms = prepare.last_terms
+    if n > 2000:
+        terms = terms[:2000]
+    tot = 0.0
+    for t in terms:
+        v = ref_value(t, pt)
+        if v is None:
+            return float(n) * 4.0
+        tot += abs(v)
+    return tot * (n / len(terms))
+
+
 def prepare(fam, op, n, fseed):
     """deterministic construction of one formula (all builds), its variable list, point and
     differentiation variables from (family, op, n, seed) — used by run() and by replay"""
@@ -1176,12 +1262,15 @@ def prepare(fam, op, n, fseed):
         t, ns = fams[fam](i)
         terms.append(term_for(op, t))
         names |= ns
+    prepare.last_terms = terms
     builds = {"left": build_left(op, terms), "balanced": build_balanced(op, terms)}
     bv = build_vector(op, terms)
     if bv is not None:
         builds["vector"] = bv
     if n <= 30 and op in "+*":
         builds["right"] = build_right(op, terms)
+    if 3 <= n <= 401 and op in "+*":
+        builds["zigzag"] = build_zigzag(op, terms)
     V = sorted((v for v in U.all_vars() if v.name in names), key=lambda v: v.name)
     extra = [v for v in U.all_vars() if v.name not in names][:2]
     V = V + extra  # a strict superset
@@ -1207,7 +1296,7 @@ def check_formula(fam, op, n, seed):
     builds.pop("right", None)
     wrts = [w for w in wrts if w.name in names]
     values_ok = n <= 900
-    scale = float(n) * 4.0 if op in "+-" else 1.0
+    scale = term_scale(op, n, pt)
     want_vars = tuple(sorted(names))
     ref_v = ref_value(builds["balanced"], pt) if values_ok else None
     first = None
